@@ -8,6 +8,7 @@
 -/
 import Edn.Proofs.Equal
 import Edn.Proofs.Fuel
+import Edn.Proofs.ReaderInvAux3
 
 namespace Edn.Proofs
 open Edn.Model Edn.Spec Edn.Generated
@@ -20,15 +21,65 @@ def ValOK (cfg : Cfg) (d : Nat) (v : Val) : Prop :=
     satisfies the invariant -/
 theorem readValue_inv (ctx : Ctx) (hreg : ctx.opts.registry = none) (f d : Nat) (dm : Bool) (st st' : St) (v : Val)
     (hd : d ≤ Tables.maxNestingDepth)
-    (h : readValue ctx f d dm st = .ok v st') : ValOK ctx.cfg d v := by
-  sorry
+    (h : readValue ctx f d dm st = .ok v st') : ValOK ctx.cfg d v :=
+  okP_elim ((reader_inv ctx hreg f).1 d dm st hd) h
 
 /-- top level: the tree `edn_read` returns is well-formed, within the depth that equality,
     hashing and lookup handle, and has valid caches — the hypotheses of the C07/C08/C09 theorems -/
 theorem read_inv (cfg : Cfg) (opts : Opts) (hreg : opts.registry = none) (input : Bytes) (v : Val)
     (h : (read cfg opts input).out = .value v) :
     depth v < maxDepthFuel ∧ WF cfg v ∧ cacheOK cfg v = true := by
-  sorry
+  unfold Edn.Model.read at h
+  simp only [] at h
+  cases hr : readValue { cfg := cfg, opts := opts } (readFuel input) 0 false { rest := input } with
+  | ok v' st =>
+    rw [hr] at h
+    simp only [] at h
+    cases h
+    obtain ⟨h1, h2, h3⟩ := readValue_inv { cfg := cfg, opts := opts } hreg _ 0 false _ _ _ (Nat.zero_le _) hr
+    refine ⟨?_, h2, h3⟩
+    have := nest_le_rec
+    show depth v < Tables.maxRecursionDepth + 1
+    omega
+  | closer st =>
+    rw [hr] at h
+    simp only [] at h
+    cases h
+  | err e st =>
+    rw [hr] at h
+    simp only [] at h
+    repeat' split at h
+    all_goals cases h
+
+/-- the closing step of `readSeq` for a set, computed -/
+theorem readSeq_close_set (ctx : Ctx) (f d : Nat) (dm : Bool) (start : Nat) (st stc : St) (acc : List Val)
+    (r : Bytes) (hcl : readValue ctx f (d + 1) dm st = .closer stc) (hr : stc.rest = 0x7D :: r) :
+    readSeq ctx (f + 1) d dm 2 start st acc =
+      if (hasDuplicates ctx.cfg acc.reverse).1 = true then
+        .err (mkErr .duplicateElement (some start) (some (ctx.pos r))) { stc with rest := r }
+      else .ok (.set (mkHdr start (ctx.pos r)) none (hasDuplicates ctx.cfg acc.reverse).2)
+        { stc with rest := r } := by
+  rw [readSeq_succ]
+  unfold rsStep
+  rw [hcl]
+  simp only [hr]
+  rw [if_neg (by decide), if_neg (by decide), if_neg (by decide)]
+
+/-- the closing step of `readMap`, computed -/
+theorem readMap_close (ctx : Ctx) (f d : Nat) (dm : Bool) (start : Nat) (ns : Option Bytes) (st stc : St)
+    (ks vs : List Val) (r : Bytes)
+    (hcl : readValue ctx f (d + 1) dm st = .closer stc) (hr : stc.rest = 0x7D :: r) :
+    readMap ctx (f + 1) d dm start ns st ks vs =
+      if (hasDuplicates ctx.cfg ks.reverse).1 = true then
+        .err (mkErr .duplicateKey (some start) (some (ctx.pos r))) { stc with rest := r }
+      else .ok (.map (mkHdr start (ctx.pos r)) none (hasDuplicates ctx.cfg ks.reverse).2 vs.reverse)
+        { stc with rest := r } := by
+  rw [readMap_succ]
+  unfold rmStep
+  simp only []
+  rw [hcl]
+  simp only [hr]
+  rw [if_neg (by decide)]
 
 /-- C08, reader half: a set literal whose elements have been read as `xs` (in order) is
     rejected as DUPLICATE_ELEMENT exactly when two of them are equal.  Stated on the closing
@@ -42,7 +93,19 @@ theorem set_close_verdict (ctx : Ctx) (f d : Nat) (dm : Bool) (start : Nat) (st 
           ys.length = acc.length ∧ pairwiseDistinct ctx.cfg ys) ∧
     (¬ pairwiseDistinct ctx.cfg acc.reverse →
         ∃ e, readSeq ctx (f + 1) d dm 2 start st acc = .err e { stc with rest := r } ∧ e.code = .duplicateElement) := by
-  sorry
+  rw [readSeq_close_set ctx f d dm start st stc acc r hcl hr]
+  obtain ⟨h1, -, h3, h4, -⟩ := hasDuplicates_iff ctx.cfg acc.reverse hel
+  constructor
+  · intro hp
+    rw [if_neg (by rw [h1.mpr hp]; exact Bool.false_ne_true)]
+    exact ⟨_, _, rfl, by rw [h3, List.length_reverse], h4 hp⟩
+  · intro hp
+    have hdup : (hasDuplicates ctx.cfg acc.reverse).1 = true := by
+      cases hq : (hasDuplicates ctx.cfg acc.reverse).1 with
+      | true => rfl
+      | false => exact absurd (h1.mp hq) hp
+    rw [if_pos hdup]
+    exact ⟨_, rfl, rfl⟩
 
 /-- the same for maps (keys after namespace qualification) -/
 theorem map_close_verdict (ctx : Ctx) (f d : Nat) (dm : Bool) (start : Nat) (ns : Option Bytes) (st stc : St)
@@ -54,6 +117,18 @@ theorem map_close_verdict (ctx : Ctx) (f d : Nat) (dm : Bool) (start : Nat) (ns 
           keys.length = ks.length ∧ pairwiseDistinct ctx.cfg keys) ∧
     (¬ pairwiseDistinct ctx.cfg ks.reverse →
         ∃ e, readMap ctx (f + 1) d dm start ns st ks vs = .err e { stc with rest := r } ∧ e.code = .duplicateKey) := by
-  sorry
+  rw [readMap_close ctx f d dm start ns st stc ks vs r hcl hr]
+  obtain ⟨h1, -, h3, h4, -⟩ := hasDuplicates_iff ctx.cfg ks.reverse hel
+  constructor
+  · intro hp
+    rw [if_neg (by rw [h1.mpr hp]; exact Bool.false_ne_true)]
+    exact ⟨_, _, rfl, by rw [h3, List.length_reverse], h4 hp⟩
+  · intro hp
+    have hdup : (hasDuplicates ctx.cfg ks.reverse).1 = true := by
+      cases hq : (hasDuplicates ctx.cfg ks.reverse).1 with
+      | true => rfl
+      | false => exact absurd (h1.mp hq) hp
+    rw [if_pos hdup]
+    exact ⟨_, rfl, rfl⟩
 
 end Edn.Proofs
